@@ -46,6 +46,9 @@ pub enum Req {
     Open(u8),
     OpenSync(u8),
     OpenSub(u8),
+    /// open with a subscriber whose receiver is already gone: an open like any other (a handle
+    /// more); the dead subscriber disappears with the next event
+    OpenSubDead(u8),
     Close(u8),
     SyncOn(u8),
     SyncOff(u8),
@@ -104,6 +107,7 @@ fn requests() -> Vec<Req> {
         ]);
     }
     v.push(Req::ImportRead(1));
+    v.push(Req::OpenSubDead(0));
     v
 }
 
@@ -120,6 +124,8 @@ struct Doc {
     peer_registered: bool,
     /// the write capability has been imported (document 0 starts with it)
     writable: bool,
+    /// subscribers whose receiver is gone (removed when the next event is sent)
+    dead: usize,
 }
 
 impl Doc {
@@ -135,6 +141,7 @@ impl Doc {
             self.sync = false;
             self.subscribers = 0;
             self.unsubscribable = 0;
+            self.dead = 0;
             true
         } else {
             false
@@ -155,12 +162,16 @@ fn model_step(m: &mut [Doc; 2], r: Req, step: usize) -> String {
     let ok = "Ok".to_string();
     let err = "Err".to_string();
     match r {
-        Req::Open(d) | Req::OpenSync(d) | Req::OpenSub(d) => {
+        Req::Open(d) | Req::OpenSync(d) | Req::OpenSub(d) | Req::OpenSubDead(d) => {
             let doc = &mut m[d as usize];
             if !doc.exists {
                 return err;
             }
             doc.handles += 1;
+            if matches!(r, Req::OpenSubDead(_)) {
+                doc.subscribers += 1;
+                doc.dead += 1;
+            }
             if matches!(r, Req::OpenSync(_)) {
                 doc.sync = true;
             }
@@ -186,6 +197,8 @@ fn model_step(m: &mut [Doc; 2], r: Req, step: usize) -> String {
             let e = local_entry(d, step, matches!(r, Req::Delete(_)));
             match doc.entries.put(&e) {
                 PutOutcome::Inserted { removed } => {
+                    doc.subscribers -= doc.dead;
+                    doc.dead = 0;
                     if matches!(r, Req::Delete(_)) {
                         format!("Ok({removed})")
                     } else {
@@ -260,7 +273,11 @@ fn model_step(m: &mut [Doc; 2], r: Req, step: usize) -> String {
                 return err;
             }
             match doc.entries.put(&remote_entry(d)) {
-                PutOutcome::Inserted { .. } => ok,
+                PutOutcome::Inserted { .. } => {
+                    doc.subscribers -= doc.dead;
+                    doc.dead = 0;
+                    ok
+                }
                 PutOutcome::Superseded => err,
             }
         }
@@ -322,6 +339,11 @@ fn issue<'a>(
             Req::OpenSub(d) => {
                 let (tx, rx) = async_channel::unbounded();
                 keep.borrow_mut().push(rx);
+                res(h.open(ns_id(d), OpenOpts::default().subscribe(tx)).await)
+            }
+            Req::OpenSubDead(d) => {
+                let (tx, rx) = async_channel::unbounded();
+                drop(rx);
                 res(h.open(ns_id(d), OpenOpts::default().subscribe(tx)).await)
             }
             Req::Close(d) => match h.close(ns_id(d)).await {
